@@ -388,27 +388,47 @@ def rewrite_work(src):
     out = out.replace('atomic.LoadUint32(', 'vsync.LoadUint32(').replace('atomic.StoreUint32(', 'vsync.StoreUint32(')
     out = out.replace('rand.Intn(', 'vsync.Intn(')
     out = re.sub(r'\bgo (\w+(?:\.\w+)*)\(\)', r'vsync.Go(\1)', out)
-    return out
+    # plain accesses of cacheEntry.result are scheduling points of the model (they are not ordered
+    # by the entry mutex for every reader): stop before them as well
+    lines = []
+    for l in out.split('\n'):
+        st = l.strip()
+        if re.search(r'\be\.result\b', st) and not st.startswith(('for ', '}', '//', 'result ')) and (st.startswith('if ') or not st.endswith('{')):
+            m = re.match(r'^(\s*)e\.result = (.+)$', l)
+            if m and '(' in m.group(2):
+                # e.result = f(): evaluate first, stop before the store
+                lines.append('%svResult := %s' % (m.group(1), m.group(2)))
+                lines.append('%svsync.Yield()' % m.group(1))
+                lines.append('%se.result = vResult' % m.group(1))
+                continue
+            lines.append(re.match(r'^\s*', l).group(0) + 'vsync.Yield()')
+        lines.append(l)
+    return '\n'.join(lines)
 
 INSTRUMENTED_CALLS = ('(*sync.Mutex).Lock', '(*sync.Cond).Wait', '(*sync.Map).Load', '(*sync.Map).LoadOrStore', '(*sync.Map).Store',
                       'sync/atomic.LoadUint32', 'sync/atomic.StoreUint32', 'vYield')
 
+# visible operations of the model at which the shim has a yield point (before the operation)
+NATIVE_YIELD_OPS = ('lock', 'wait-resume', 'map.load', 'map.loadorstore', 'map.store', 'atomic.load', 'atomic.store', 'yield', 'load', 'store')
+
 def schedule_for_shim(v, mode=None):
-    """Steps of the model that correspond to yield points of the shim."""
+    """One scheduler pick per visible operation a step of the model performs: the shim stops a
+    goroutine before each of these operations and performs it when the goroutine is picked."""
     sched = []
     choices = {}
     for s in v['schedule']:
-        if 'goroutine' not in s:
+        if 'goroutine' not in s or s.get('goroutine') is None:
             break
-        op = s.get('op', '')
         g = s['goroutine']
         for kind, val in s.get('choices_used', []):
             choices.setdefault(g, []).append(val)
-        if s.get('entry') or any(op.endswith(c) or c in op for c in INSTRUMENTED_CALLS):
-            sched.append(g)
-            if mode == 'work' and 'vYield' in op:
-                # the model's step "resume after the yield inside f" runs on to (and includes) the next
-                # lock acquisition; the shim stops once more at that Lock: the goroutine is picked twice
+        fired = s.get('fired') or {}
+        for op in fired.get('vis_ops', []):
+            # plain accesses are stopping points of the shim only where the source was instrumented
+            # (cacheEntry.result); Work's few unlocked field accesses in Do are not
+            if op in ('load', 'store') and mode != 'cache':
+                continue
+            if op in NATIVE_YIELD_OPS:
                 sched.append(g)
     return sched, choices
 
